@@ -1,0 +1,15 @@
+//go:build verif
+
+package ir
+
+// VerifHook, when non-nil, receives one event per step of the ID assignment
+// functions: "lock" (mutex acquired), "setid" (obj is about to receive ID new,
+// its cached ID being old) and "unlock" (mutex about to be released). Only
+// present with build tag verif.
+var VerifHook func(ev string, obj interface{}, old, new int64)
+
+func verifTrace(ev string, obj interface{}, old, new int64) {
+	if h := VerifHook; h != nil {
+		h(ev, obj, old, new)
+	}
+}
